@@ -94,7 +94,11 @@ func corrupt(r *rng.R, set map[string]*val.V) (map[string]*val.V, string) {
 	}
 	name := names[r.Intn(len(names))]
 	v := o[name]
-	switch r.Intn(6) {
+	kind := r.Intn(8)
+	if kind >= 6 {
+		kind = 2 // the off-by-one extent is the kind that fails deepest inside a Run: draw it more often
+	}
+	switch kind {
 	case 0:
 		delete(o, name)
 		return o, "missing input " + name
@@ -102,12 +106,20 @@ func corrupt(r *rng.R, set map[string]*val.V) (map[string]*val.V, string) {
 		v.Shape = append([]int{1}, v.Shape...)
 		return o, "extra leading axis on " + name
 	case 2:
+		// one extent of one input off by one: rejected by validateShapes when that axis is fixed, and otherwise
+		// (dynamic axis: batch/sequence mismatch between inputs) a failure deep inside an operator's Apply
 		if len(v.Shape) > 0 {
-			ax := len(v.Shape) - 1
-			n := val.NElems(v.Shape) / v.Shape[ax]
-			v.Shape[ax]++
-			v.Bits = append(v.Bits, make([]uint64, n)...)
-			return o, "last extent +1 on " + name
+			ax := r.Intn(len(v.Shape))
+			d := 1
+			if v.Shape[ax] > 1 && r.Bool() {
+				d = -1
+			}
+			v.Shape[ax] += d
+			v.Bits = make([]uint64, val.NElems(v.Shape))
+			for i := range v.Bits {
+				v.Bits[i] = set[name].Bits[i%len(set[name].Bits)]
+			}
+			return o, fmt.Sprintf("extent %+d on axis %d of %s", d, ax, name)
 		}
 		fallthrough
 	case 3:
@@ -296,6 +308,42 @@ type runner struct {
 	rc   *refCache
 	stop bool
 	vcap int
+	recent []*Case // the last few worlds this process executed
+	worlds        int64
+	pristineEvery int64
+}
+
+// pristineDue: one world in pristineEvery (small ones only) is judged against pristine-process references.
+func (rn *runner) pristineDue(c *Case) bool {
+	rn.worlds++
+	if rn.worlds%rn.pristineEvery != 0 {
+		return false
+	}
+	n := 0
+	for _, t := range c.World.Tasks {
+		n += len(t.Calls)
+	}
+	for _, m := range c.World.Models {
+		if len(m.Bytes) > 16384 {
+			return false
+		}
+	}
+	return n <= 12
+}
+
+// remember keeps the last 3 small worlds as the prelude of a later recorded violation.
+func (rn *runner) remember(c *Case) {
+	sz := 0
+	for _, m := range c.World.Models {
+		sz += len(m.Bytes)
+	}
+	if sz > 16384 {
+		return
+	}
+	rn.recent = append(rn.recent, c)
+	if len(rn.recent) > 3 {
+		rn.recent = rn.recent[1:]
+	}
 }
 
 func (rn *runner) expired() bool { return rn.stop || time.Now().After(rn.cfg.Deadline) }
@@ -311,7 +359,7 @@ func (rn *runner) note(c *Case, wr *worldRun) {
 			}
 			st.Probe("call_" + call.Kind)
 			st.Probe("outcome_" + res.Kind)
-			if call.Kind == KOpFault {
+			if call.Fault != nil {
 				if res.FaultHit {
 					st.Fault("operator-" + call.Fault.Mode + "@" + call.Fault.When)
 				} else {
@@ -348,7 +396,13 @@ func (rn *runner) report(c *Case, vs []verdict) {
 		rn.st.Known[v.sig]++
 		return
 	}
-	raw, _ := json.Marshal(c)
+	rec := cloneCase(c)
+	for _, p := range rn.recent {
+		pc := cloneCase(p)
+		pc.Prelude = nil
+		rec.Prelude = append(rec.Prelude, *pc)
+	}
+	raw, _ := json.Marshal(rec)
 	rn.st.Violations = append(rn.st.Violations, evid.Violation{Property: rn.cfg.Prop, Signature: v.sig, What: v.what, Case: raw})
 	if len(rn.st.Violations) >= rn.vcap {
 		rn.stop = true
@@ -399,14 +453,20 @@ func sampleOf(c *Case) interface{} {
 // first, then seeded random worlds until the deadline.
 func Worker02(cfg Config) *evid.Stats {
 	st := evid.NewStats()
-	rn := &runner{cfg: cfg, st: st, rc: &refCache{m: map[uint64]*refResult{}}, vcap: 6}
+	rn := &runner{cfg: cfg, st: st, rc: &refCache{m: map[uint64]*refResult{}}, vcap: 6, pristineEvery: 200}
 	lib := newLibrary(cfg.RepoDir)
 	if len(lib.samples) == 0 {
 		st.Trouble = append(st.Trouble, "no sample models under "+cfg.RepoDir)
 	}
 	one := func(c *Case) {
 		wr := execute(c, nil, false, true)
-		vs := judge(c, wr, rn.rc, true, false)
+		rc := rn.rc
+		if rn.pristineDue(c) {
+			c.PristineRef = true
+			rc = &refCache{m: map[uint64]*refResult{}, pristine: true}
+			st.Probe("worlds_judged_against_pristine_process_references")
+		}
+		vs := judge(c, wr, rc, true, false)
 		st.Evals++
 		rn.note(c, wr)
 		if nontrivial02(c, wr) {
@@ -419,7 +479,7 @@ func Worker02(cfg Config) *evid.Stats {
 		if len(vs) > 0 {
 			// attribute: re-execute with per-node traces to name the first diverging operator
 			wr2 := execute(c, nil, true, true)
-			vs2 := judge(c, wr2, rn.rc, true, true)
+			vs2 := judge(c, wr2, rc, true, !c.PristineRef)
 			if len(vs2) > 0 {
 				vs = vs2
 			}
@@ -428,6 +488,7 @@ func Worker02(cfg Config) *evid.Stats {
 		if len(rn.rc.m) > 20000 {
 			rn.rc.m = map[uint64]*refResult{}
 		}
+		rn.remember(c)
 	}
 	// 1. enumerated: every template x every (operand, binding) pair x the fixed reuse patterns
 	idx := 0
